@@ -23,19 +23,59 @@ AXIOM_ALLOW = {
 }
 
 
+def kill_tree(pid):
+    """SIGKILL pid and every descendant (found through /proc/*/stat parent links)"""
+    import signal
+    kids = {}
+    for d in os.listdir('/proc'):
+        if d.isdigit():
+            try:
+                st = open('/proc/%s/stat' % d).read()
+                ppid = int(st[st.rindex(')') + 2:].split()[1])
+                kids.setdefault(ppid, []).append(int(d))
+            except (OSError, ValueError, IndexError):
+                pass
+    todo, seen = [pid], []
+    while todo:
+        x = todo.pop()
+        seen.append(x)
+        todo += kids.get(x, [])
+    # ... and whatever else lives in the session the command was started in (children re-parented to init)
+    for d in os.listdir('/proc'):
+        if d.isdigit() and int(d) not in seen:
+            try:
+                st = open('/proc/%s/stat' % d).read()
+                if int(st[st.rindex(')') + 2:].split()[3]) == pid:
+                    seen.append(int(d))
+            except (OSError, ValueError, IndexError):
+                pass
+    for x in reversed(seen):
+        try:
+            os.kill(x, signal.SIGKILL)
+        except OSError:
+            pass
+
+
 def sh(cmd, timeout=600, cwd=None, env=None, check=False, input=None):
     e = dict(os.environ)
     e['CARGO_NET_OFFLINE'] = 'true'
     if env:
         e.update(env)
     t0 = time.time()
+    p = subprocess.Popen(cmd, shell=isinstance(cmd, str), cwd=cwd, env=e, stdout=subprocess.PIPE, stderr=subprocess.STDOUT,
+                         stdin=subprocess.PIPE if input is not None else None, start_new_session=True)
     try:
-        p = subprocess.run(cmd, shell=isinstance(cmd, str), cwd=cwd, env=e, timeout=timeout,
-                           stdout=subprocess.PIPE, stderr=subprocess.STDOUT, input=input)
-        out = p.stdout.decode('utf-8', 'replace')
+        o, _ = p.communicate(input=input, timeout=timeout)
+        out = o.decode('utf-8', 'replace')
         rc = p.returncode
-    except subprocess.TimeoutExpired as ex:
-        out = (ex.stdout or b'').decode('utf-8', 'replace') + '\n[TIMEOUT after %ss]' % timeout
+    except subprocess.TimeoutExpired:
+        # the probes fork children that put themselves into process groups of their own: kill the whole tree, not just the command
+        kill_tree(p.pid)
+        try:
+            o, _ = p.communicate(timeout=3)
+        except subprocess.TimeoutExpired:
+            o = b''
+        out = (o or b'').decode('utf-8', 'replace') + '\n[TIMEOUT after %ss]' % timeout
         rc = 124
     if check and rc != 0:
         raise RuntimeError('command failed (%d): %s\n%s' % (rc, cmd, out[-4000:]))
